@@ -100,6 +100,8 @@ def roundtrip(case, acc):
         libs = []
         if case['kind'] == 'roundtrip':
             libs = [(libname(r, r.choice([1, 3, 8, 20, 40, 80])), case['n'] // 3) for _ in range(3)]
+            # library names as people number them: run1, plate_12 (the library is the last field of a bulk read name)
+            libs[1] = (libs[1][0] + r.choice(['1', '2', '12', '_21', '-1', '_2']), libs[1][1])
         else:
             # probe the header length of this strategy with a 1-character library, then sweep across the limit
             libs = [('L', 4)]
